@@ -22,6 +22,7 @@ type File struct {
 	app     bool
 	closed  bool
 	lostErr bool // a "lost" write happened: Close reports EIO
+	dev     bool // opened through /dev/stdout and friends
 }
 
 var (
@@ -222,6 +223,12 @@ func (f *File) Close() error {
 func (f *File) Sync() error {
 	seq, flt, fi := w.step()
 	var err error
+	if f.std != 0 {
+		// the simulated standard streams are pipes: fsync(2) answers EINVAL
+		err = pathErr("sync", f.name, syscall.EINVAL)
+		w.done(seq, "sync", f.name, 0, err, flt, fi, false)
+		return err
+	}
 	if e := faultErrno(flt); e != 0 {
 		err = pathErr("sync", f.name, e)
 	} else if f.lostErr {
@@ -372,6 +379,19 @@ func OpenFile(name string, flag int, perm fs.FileMode) (*File, error) {
 		err := pathErr("open", name, e)
 		w.done(seq, op, name, 0, err, flt, fi, true)
 		return nil, err
+	}
+	// the device names of the standard streams (go-jsonschema -o /dev/stdout | gofmt): a second handle on the same
+	// stream - a pipe or terminal, on which fsync, truncate and seek are invalid
+	switch filepath.Clean(w.abs(name)) {
+	case "/dev/stdout", "/dev/fd/1":
+		w.done(seq, op, name, 0, nil, flt, fi, false)
+		return &File{name: name, std: 2, wr: true, dev: true}, nil
+	case "/dev/stderr", "/dev/fd/2":
+		w.done(seq, op, name, 0, nil, flt, fi, false)
+		return &File{name: name, std: 3, wr: true, dev: true}, nil
+	case "/dev/stdin", "/dev/fd/0":
+		w.done(seq, op, name, 0, nil, flt, fi, false)
+		return &File{name: name, std: 1, rd: true, dev: true}, nil
 	}
 	n, parent, base, errno := w.lookup(name, true)
 	if flag&os.O_CREATE != 0 && len(name) > 1 && strings.HasSuffix(name, "/") {
